@@ -236,6 +236,11 @@ def row_scalar_sent(name: str, vcls: int) -> list[int]:
 
 def row_flag_dec(w: int, lsb: int) -> list[Any]:
     try:
+        first = H.hex_to_flag8(f"{w:02X}", lsb=bool(lsb))
+        # the decoded list belongs to the caller: editing it in place (the normal way to derive another flag byte)
+        # must not change what the next decode of the same byte returns - the row carries the *second* decode
+        for i in range(len(first)):
+            first[i] = 1 - first[i] if first[i] in (0, 1) else first[i]
         bits = H.hex_to_flag8(f"{w:02X}", lsb=bool(lsb))
     except Exception:  # noqa: BLE001
         return [w, lsb, [], 1, -1]
@@ -747,6 +752,19 @@ def _rows_job(args: tuple[str, str, list]) -> list:
         return [row_flag_enc(*x) for x in inputs]
     if kind == "dtm_enc":
         return [row_dtm_enc(*x) for x in inputs]
+    if kind == "dtm_enc_tz":   # the same rows with the process in a time zone that has daylight saving (UK rules)
+        import time as _time
+        old_tz = os.environ.get("TZ")
+        os.environ["TZ"] = "GMT0BST,M3.5.0/1,M10.5.0"
+        _time.tzset()
+        try:
+            return [row_dtm_enc(*x) for x in inputs]
+        finally:
+            if old_tz is None:
+                os.environ.pop("TZ", None)
+            else:
+                os.environ["TZ"] = old_tz
+            _time.tzset()
     if kind == "dtm_dec":
         return [row_dtm_dec(x) for x in inputs]
     if kind == "dtm_sent":
@@ -794,6 +812,11 @@ def build_tables(tier: str, seed: int = 0, only: list[str] | None = None) -> tup
     specs.append(("dtm", "dtm", "enc", [], "every minute of 12 special days; every day of 2000-2099; every second of "
                   + ("2024-02-29; every minute of 2020-2024" if tier == "thorough" else "two hours of 2024-02-29")
                   + "; DST flag both ways", "dtm_enc", dtm_enc_inputs(tier)))
+    # wall-clock values are coded as they are, whatever the host's time zone: the DST-change days again, with the
+    # process in a zone that has daylight saving (the skipped and the repeated hour)
+    tz_days = {(2024, 3, 31), (2024, 10, 27), (2021, 6, 15)}
+    specs.append(("dtm_tz", "dtm", "enc", [], "every minute of 2024-03-31, 2024-10-27, 2021-06-15 with TZ=GMT0BST (UK rules)",
+                  "dtm_enc_tz", [x for x in dtm_enc_inputs("quick") if tuple(x[0][:3]) in tz_days]))
     specs.append(("dtm", "dtm", "dec", [], "cross product of boundary / invalid field bytes incl. day-of-week and DST bits, "
                   "6- and 7-byte forms", "dtm_dec", dtm_dec_inputs()))
     specs.append(("dtm", "dtm", "sent", [], "None, both forms", "dtm_sent", [0, 1]))
